@@ -1,5 +1,5 @@
 (* C20/Witness.v — non-vacuity examples and concrete evaluations (vm_compute). *)
-From Verif Require Import Common.Base C20.Model C20.Proofs1 C20.Proofs2 C20.Proofs3.
+From Verif Require Import Common.Base C20.Model C20.Proofs1 C20.Proofs2 C20.Proofs3 C20.Proofs4.
 
 Definition o1 : oracle :=
   mkOracle (fun g => match g with
@@ -135,3 +135,23 @@ Example ex_provider_level :
    PRetrieve 1 0 true; PRetrieve 1 1 true; PRetrieve 1 2 true; PRetrieve 1 3 true;
    PShutdown 0 true; PShutdown 1 true; PShutdown 2 true].
 Proof. vm_compute. reflexivity. Qed.
+
+(* the panic witness, action by action *)
+Example ex_sender_panic_log :
+  snd (run refute_oracle init panic_history) =
+  [ASetState Starting; ACloseChan; AGet 0 true; ACreate 0 1; ACreate 0 2; ACreate 0 3; ACreate 0 0;
+   AStart 0 0 true; AStart 0 1 true; AStart 0 2 true; AStart 0 3 true; ASetState Running;
+   ASetState Closing; ASenderPanic; AClose 0; AProvShutdown true; ANotReady 0;
+   AShutdown 0 3 true; AShutdown 0 2 true; AShutdown 0 1 true; AShutdown 0 0 true; ASetState Closed; AReturn RNil].
+Proof. vm_compute. reflexivity. Qed.
+
+(* hypotheses of orderly_shutdown_partial / stop_request_ends_run are satisfiable on a non-trivial run *)
+Example ex_partial_hyp :   (* every prefix of h_ok is some firstn k h_ok *)
+  forallb (fun k => Nat.leb (length (st_watch (fst (run o1 init (firstn k h_ok))))) 1) (seq 0 (S (length h_ok))) = true.
+Proof. vm_compute. reflexivity. Qed.
+
+Example ex_measure :
+  let s := fst (run o1 init [LRun BrWatch; LRun BrWatch; LInjSig SigHup; LInjSig SigHup; LShutdownCall]) in
+  mu s = 10 /\ run_enabled o1 s [BrSignal; BrWatch; BrWatch; BrShutdownChan; BrWatch] = true /\
+  st_pc (fst (run o1 s (map LRun [BrSignal; BrWatch; BrWatch; BrShutdownChan; BrWatch]))) = PDone DStopped.
+Proof. vm_compute. auto. Qed.
